@@ -8,6 +8,7 @@ from .. import core, known, route
 
 SIG_OVERFLOW = "dijkstra-unreachable-node-relaxed"     # root cause: ULONG_MAX + cost wraps around in the relaxation
 CPU = 3   # seconds; the median case needs ~3 ms
+SIG_ISOLATED = "dijkstra-netpoint-without-route"    # root cause: node_map_search() == nullptr is dereferenced
 SIG_REVERSED = "dijkstra-hop-links-reversed"           # root cause: insert_link_latency() inserts each hop reversed
 
 
@@ -16,10 +17,10 @@ class C25(core.Prop):
     drivers = ["route_driver"]
     ready = False
     max_workers = 4
-    sizes = {"quick": 1600, "thorough": 40000}
+    sizes = {"quick": 1400, "thorough": 40000}
     technique = ("property-based testing (Hypothesis): validity predicate (chain of declared one-hop routes + minimal link count "
                  "from a reference Dijkstra) and differential Floyd/Dijkstra/DijkstraCache on the same generated graph")
-    rule = ("Hypothesis generates directed graphs of 2..30 netpoints (hosts and routers, random creation order) with declared one-hop "
+    rule = ("Hypothesis generates directed graphs of 1..30 netpoints (hosts and routers, random creation order) with declared one-hop "
             "routes of 1-4 links (symmetrical or one-way, split-duplex links with directions, links possibly shared between routes, "
             "optional declared loopback routes of 1-2 links): strongly connected by construction (spanning cycle / symmetric tree / "
             "mixed) or only weakly connected (randomly oriented tree) plus chords.  The same graph is built four times in one "
@@ -54,10 +55,14 @@ class C25(core.Prop):
         exclude_overflow = kn.is_known(SIG_OVERFLOW) and not g.get("noexclude") and not os.environ.get("VF_C25_NOEXCLUDE")
         queries = {}
         excluded = 0
+        exclude_isolated = kn.is_known(SIG_ISOLATED) and not g.get("noexclude") and not os.environ.get("VF_C25_NOEXCLUDE")
         for k in route.SP_KINDS:
             q = []
             for s, d in g["pairs"]:
                 if s == d:
+                    if k != "floyd" and exclude_isolated and not any(s in e for e in dedges):
+                        excluded += 1      # a netpoint that appears in no route crashes Dijkstra zones (known)
+                        continue
                     if g["types"][s] == "h":
                         q.append((s, d))
                     continue
@@ -112,6 +117,8 @@ class C25(core.Prop):
                     what += "; alone the same query returns (only after the earlier queries it does not)"
             if k != "floyd" and not route.reach_all(dist[s]):
                 sig = SIG_OVERFLOW
+            if k != "floyd" and not any(s in e or d in e for e in dedges):
+                sig = SIG_ISOLATED
             oc.bad(sig, "%s zone: route %d -> %d %s" % (k, s, d, what))
             # go on with the queries after the fatal one
             seen = False
